@@ -41,9 +41,9 @@ Section Solvers.
   (* the Rust locals; [bs_exact] is the per-iteration flag `exact` *)
   Record bstate := { bs_iter : nat; bs_lower : T; bs_upper : T; bs_x : T; bs_err : option T; bs_exact : bool }.
 
-  (* x_curr < lower_bound || x_curr > upper_bound *)
+  (* x_curr.is_nan() || x_curr < lower_bound || x_curr > upper_bound   (is_nan: x != x; repair 5439521) *)
   Definition init_out (b : bounds) : bool :=
-    nltb (b_init b) (b_lower b) || nltb (b_upper b) (b_init b).
+    nneb (b_init b) (b_init b) || nltb (b_init b) (b_lower b) || nltb (b_upper b) (b_init b).
 
   (* one loop body up to and including the exit test (before `iter += 1`) *)
   Definition bis_body (f : T -> res T) (tol : T) (itermax : nat) (s : bstate) : res (bstate * bool) :=
